@@ -134,6 +134,14 @@ CLAIMS["C01"] = (
     "parsers (GameSpy 1/2, Quake, Unreal 2 lists, Java JSON) are only covered for empty replies in the quick tier.",
     "DESIGN.md §4 C01")
 
+CLAIMS["C13"] = (
+    "Solver verdict, with the size operand fully symbolic at each anchor site, that pre-sized allocations whose size comes "
+    "from a reply field request at most 16 MiB (Minecraft string length, GameSpy 1 maxplayers, Valve player count); the "
+    "Valve decompressed-size site violates it and is an open known finding. Partial claim: per-request bound only.",
+    "Trusted: size-asserting stubs for Vec::with_capacity / vec![x;n]. NOT claimed: the 64 MiB live total, growth by "
+    "push/extend, sites listed under bounds.outside.",
+    "DESIGN.md §4 C13")
+
 ALL = ["C%02d" % i for i in range(1, 21)]
 
 DEFAULT_NA = "check not built yet in this revision (work in progress; see DESIGN.md for the plan)"
